@@ -12,6 +12,20 @@ C18.enc   every value an encoder uses to index its alphabet is below the
           upper bound of the index expression at each call of the indexing
           helper): no input octets can make `display` / `encode` panic.
 
+C18.bits  every octet a Base32 / Base64 decoder assembles (`(buf[i] << s) |
+          (buf[j] >> r) | ..`) equals the RFC 4648 bit layout: the set of
+          (symbol index, direction, amount) of the expression is the one
+          computed from the group width (5 / 6 bits) for some output octet --
+          in the Decoders and the SymbolConverters, full groups and tails.
+C18.split the scanners' convert_entry / convert_token call the converter's
+          process_tail once, after the loop over tokens and symbols, on every
+          path to a successful return: the result does not depend on how the
+          text is split into tokens.
+C18.sticky  the three incremental Decoders document "it is okay to push more
+          data after the first error, the method will just keep returning
+          errors": every error push() returns is also recorded in
+          self.target, so that finalize() cannot succeed after a failed push.
+
 The incremental state machines, padding and chunking independence are
 value-level and are not decided.
 """
@@ -141,6 +155,9 @@ def run(ctx):
     rule_state(ctx, F)
     rule_idx(ctx, F)
     rule_enc(ctx, F)
+    rule_sticky(ctx, F)
+    rule_bits(ctx, F)
+    rule_tailcall(ctx, F)
 
 
 # ---------------------------------------------------------------------------
@@ -329,14 +346,33 @@ def _state_signature(b, pad_value):
 F_GLOBAL = [None]
 
 
+def _machine(F, path):
+    """The body that holds a decoder's state machine: `path` itself, or -- when `path` has become a thin wrapper around a
+    new private method (which the inliner folded into it) -- that method's own body, in which `self` is still argument 1
+    and the return place still _0 (what the path walks below look at)."""
+    b = F.body(path)
+    if b is None:
+        return None
+    for blk in b.blocks:
+        callee = blk["t"].get("inlined") if isinstance(blk.get("t"), dict) else None
+        cb = F.bodies.get(callee) if callee else None
+        if cb is None:
+            continue
+        for cblk in cb.blocks:
+            for st in cblk["s"]:
+                if st[0] == "=" and len(st[1]) >= 3 and isinstance(st[1][-1], list) and st[1][-1][0] == "." and st[1][-1][2] == "next":
+                    return cb
+    return b
+
+
 def rule_state(ctx, F):
     R = "C18.state"
     ctx.floor(R, 2)
     F_GLOBAL[0] = F
     padm = F.consts.get("utils::base64::PAD_MARKER", {}).get("value")
     eof = F.consts.get("utils::base64::EOF_MARKER", {}).get("value")
-    a = F.body("utils::base64::Decoder::<Builder>::push")
-    c = F.body("utils::base64::SymbolConverter::process_char")
+    a = _machine(F, "utils::base64::Decoder::<Builder>::push")
+    c = _machine(F, "utils::base64::SymbolConverter::process_char")
     if not (ctx.anchor(R, "base64 Decoder::push", a) and ctx.anchor(R, "base64 SymbolConverter::process_char", c)
             and ctx.anchor(R, "base64 PAD_MARKER/EOF_MARKER", padm is not None and eof is not None)):
         return
@@ -451,8 +487,9 @@ def rule_idx(ctx, F):
         stores = set()
         for bi in b.reachable_blocks():
             for st in b.blocks[bi]["s"]:
-                if st[0] == "=" and len(st[1]) >= 3 and st[1][0] == 1 and isinstance(st[1][-1], list) and st[1][-1][0] == "." \
-                        and st[1][-1][2] == "next":
+                if st[0] == "=" and len(st[1]) >= 3 and isinstance(st[1][-1], list) and st[1][-1][0] == "." \
+                        and st[1][-1][2] == "next" and (st[1][0] == 1 or deep_strip(b.term_of_place(st[1][:-1]))[:2] == ("arg", 1)
+                                                        or deep_strip(b.term_of_place(st[1]))[1:2] == (("arg", 1),)):
                     rv = deep_strip(b.term_of_rvalue(st[2]))
                     alts = rv[2] if rv[0] == "phi" else [rv]
                     if all(const_value(a) is not None and const_value(a) != N for a in alts):
@@ -479,3 +516,184 @@ def rule_idx(ctx, F):
                    "after an error, and the next push indexes buf[%d] out of bounds — a panic instead of an error"
                    % (p.split("::")[-2] + "::" + p.split("::")[-1], N, N), b.where(sw))
     ctx.call_sites += n
+
+
+# ---------------------------------------------------------------------------
+# C18.sticky: an error returned by Decoder::push stays
+# ---------------------------------------------------------------------------
+
+def rule_sticky(ctx, F):
+    from rulelib import must_pass
+    R = "C18.sticky"
+    ctx.floor(R, 4)
+    for mod in ("base16", "base32", "base64"):
+        b = F.body("utils::%s::Decoder::<Builder>::push" % mod)
+        if not ctx.anchor(R, "utils::%s::Decoder::push" % mod, b):
+            continue
+        # blocks that record an error in self.target
+        rec = set()
+        b.defs()
+        for n, lst in b.partial_defs.items():
+            for d in lst:
+                if d[0] == "stmt" and not b.blocks[d[1]].get("c"):
+                    st = d[3]
+                    last = st[1][-1]
+                    if isinstance(last, list) and last[0] == "." and last[2] == "target":
+                        tmv = deep_strip(b.term_of_rvalue(st[2]))
+                        if tmv[0] == "agg" and "core::result::Result" in str(tmv[1]) and "Err" in str(tmv[1]):
+                            rec.add(d[1])
+        # helper calls that record the error themselves (append in base16/base32)
+        for bb, tt in b.calls():
+            cb = F.bodies.get(tt.get("res") or tt["fn"] or "")
+            if cb is not None and cb is not b and re.search(r"utils::%s::Decoder::<Builder>::" % mod, cb.path):
+                pass
+        rets = b.return_blocks()
+        k = 0
+        for bi in sorted(b.reachable_blocks()):
+            if b.blocks[bi].get("c"):
+                continue
+            sites = []
+            for st in b.blocks[bi]["s"]:
+                if st[0] == "=" and st[1] == [0] and st[2][0] == "agg" and st[2][1][0] == "adt" and st[2][1][1] == "core::result::Result" and st[2][1][2] == "Err":
+                    sites.append(("lit", st))
+            tm = b.blocks[bi]["t"]
+            if tm["k"] == "call" and tm.get("dest") == [0] and (tm["fn"] or "").endswith("FromResidual::from_residual"):
+                sites.append(("residual", tm))
+            for kind, s in sites:
+                k += 1
+                ok = any(b.dominates(a, bi) for a in rec) or (rec and all(must_pass(b, bi, [r], rec)[0] for r in rets if r in b.reach_from(bi)))
+                if not ok and kind == "lit":
+                    # `match self.target { Err(err) => Err(err) }`: the error *is* the recorded one
+                    payload = deep_strip(b.term_of_operand(s[2][2][0])) if s[2][2] else None
+                    if payload is not None and "target" in show(payload):
+                        ok = True
+                ctx.ob(R, b, "error return #%d is recorded in self.target" % k, bool(ok),
+                       "%s::Decoder::push returns an error without recording it in self.target (its base16/base32 siblings "
+                       "do): later pushes succeed and finalize() returns Ok -- `Zm9v!YmFy` pushed character by character decodes "
+                       "to `foobar`, a failed append to a full buffer leaves a shorter result" % mod, b.where(bi))
+        ctx.ob(R, b, "%s::Decoder::push has error returns" % mod, k >= 1, "no error return found in push", nontrivial=False)
+        # the helper that writes a decoded octet records a failed append (ShortBuf of a bounded target)
+        for ab in [x for pth, x in F.bodies.items() if re.match(r"^utils::%s::Decoder::<Builder>::(append|push|push_char)$" % mod, pth)]:
+            for bb, tt in ab.calls():
+                if not re.search(r"OctetsBuilder::append_slice$", tt["fn"] or ""):
+                    continue
+                # the call's result must be looked at: propagated with `?` / returned, or its Err arm stores into self.target
+                dest = tt.get("dest")
+                read = False
+                if dest and len(dest) == 1:
+                    d0 = dest[0]
+                    for bi2 in ab.reachable_blocks():
+                        blk = ab.blocks[bi2]
+                        for st2 in blk["s"]:
+                            if st2[0] == "=" and st2[2][0] == "discr" and st2[2][1] and st2[2][1][0] == d0:
+                                read = True
+                            if st2[0] == "=" and st2[2][0] == "use" and st2[2][1][0] in ("c", "m") and st2[2][1][1][0] == d0:
+                                read = True
+                        t2 = blk["t"]
+                        if t2["k"] == "call" and any(a[0] in ("c", "m") and a[1][0] == d0 for a in t2["args"]):
+                            read = True
+                ctx.ob(R, ab, "the outcome of append_slice is not discarded", read,
+                       "%s::Decoder::%s throws the result of append_slice away: when a bounded target is full the octet is "
+                       "dropped, no error is recorded, and finalize() returns a shorter value as if it were the whole"
+                       % (mod, ab.path.split("::")[-1]), ab.where(bb))
+
+
+# ---------------------------------------------------------------------------
+# C18.bits: bit layout of the assembled octets
+# ---------------------------------------------------------------------------
+
+def _layout(g, n_octets):
+    out = []
+    for k in range(n_octets):
+        lo, hi = 8 * k, 8 * k + 8
+        s = set()
+        i = 0
+        while g * i < hi:
+            a, e = g * i, g * i + g
+            if e > lo:
+                s.add((i, "l", hi - e) if e <= hi else (i, "r", e - hi))
+            i += 1
+        out.append(frozenset(s))
+    return out
+
+
+def _or_leaves(tm):
+    tm = deep_strip(tm)
+    if tm[0] == "bin" and tm[1] == "BitOr":
+        a, b = _or_leaves(tm[2]), _or_leaves(tm[3])
+        return None if a is None or b is None else a | b
+    if tm[0] == "bin" and tm[1].replace("Unchecked", "") in ("Shl", "Shr"):
+        base = deep_strip(tm[2])
+        amt = const_value(deep_strip(tm[3]))
+        if base[0] == "idx" and const_value(base[2]) is not None and amt is not None:
+            return {(const_value(base[2]), "l" if "Shl" in tm[1] else "r", amt)}
+        return None
+    if tm[0] == "idx" and const_value(tm[2]) is not None:
+        return {(const_value(tm[2]), "l", 0)}
+    return None
+
+
+def rule_bits(ctx, F):
+    R = "C18.bits"
+    ctx.floor(R, 20)
+    n = 0
+    for p, b in sorted(F.bodies.items()):
+        m = re.match(r"^<?utils::base(32|64)::", p)
+        if not m or "::test" in p or re.search(r"encode|display|Display|Encoder|fmt", p):
+            continue
+        want = _layout(5, 5) if m.group(1) == "32" else _layout(6, 3)
+        ors = []
+        used = set()
+        for bi in b.reachable_blocks():
+            if b.blocks[bi].get("c"):
+                continue
+            for st in b.blocks[bi]["s"]:
+                if st[0] == "=" and st[2][0] == "bin" and st[2][1] == "BitOr":
+                    ors.append((bi, st))
+                    for op in st[2][2:4]:
+                        if op[0] in ("c", "m") and len(op[1]) == 1:
+                            used.add(op[1][0])
+        for bi, st in ors:
+            if len(st[1]) == 1 and st[1][0] in used:
+                continue                # operand of a larger OR
+            leaves = _or_leaves(b.term_of_rvalue(st[2]))
+            if leaves is None:
+                continue                # not an octet assembled from buffer elements
+            n += 1
+            ks = [k for k, w in enumerate(want) if w == frozenset(leaves)]
+            ctx.ob(R, b, "assembled octet #%d (symbols %s) matches the RFC 4648 bit layout" % (n, sorted({i for i, _, _ in leaves})), bool(ks),
+                   "%s assembles an octet from %s; no octet of a %s-bit-per-symbol group is laid out like that (expected one of "
+                   "%s): the decoded octets are wrong for some inputs"
+                   % (p.split("::")[-1], sorted(leaves), "5" if m.group(1) == "32" else "6", [sorted(w) for w in want]), b.where(bi))
+    ctx.call_sites += n
+
+
+# ---------------------------------------------------------------------------
+# C18.split: process_tail exactly at the end
+# ---------------------------------------------------------------------------
+
+def rule_tailcall(ctx, F):
+    from rulelib import cyclic_blocks, must_pass
+    R = "C18.split"
+    ctx.floor(R, 2)
+    k = 0
+    for p, b in sorted(F.bodies.items()):
+        if "::test" in p or not re.search(r"::convert_(entry|token)(::<.*>)?$", p):
+            continue
+        tails = [bb for bb, tt in b.calls() if re.search(r"ConvertSymbols(<.*>)?::process_tail$|::process_tail$", tt["fn"] or "")]
+        if not tails:
+            continue
+        k += 1
+        cyc = cyclic_blocks(b)
+        ctx.ob(R, b, "process_tail is called after the loop, not inside it", not any(tb in cyc for tb in tails),
+               "%s finishes the converter inside its loop over tokens / symbols: data split over several tokens is decoded "
+               "token by token, and a split that is not at a group boundary is refused (or decoded differently)" % p.split("::")[-1],
+               b.where(tails[0]))
+        oks = [r[0] for r in return_assignments(b) if r[2] == "Ok" or str(r[2]).startswith("call:") and "from_builder" in str(r[2])]
+        oks = oks or [r[0] for r in return_assignments(b) if "Err" not in str(r[2]) and "from_residual" not in str(r[2])]
+        ok = bool(oks) and all(must_pass(b, 0, [o], tails)[0] for o in oks)
+        ctx.ob(R, b, "every successful return passes process_tail", ok,
+               "%s can return successfully without giving the converter its end-of-data call: a trailing partial group is "
+               "dropped silently" % p.split("::")[-1], b.where())
+    ctx.ob(R, "convert_entry / convert_token", "implementations found", k >= 2, "only %d scanner conversion function(s) call process_tail" % k,
+           nontrivial=False)
